@@ -178,3 +178,11 @@ PROPS['C07'] = dict(
          'body-size in {avail-1,avail,avail+1,2^24,2^31,2^40,2^47,2^62,2^63-1,2^63,2^64-1}; arbitrary bytes; random fault schedules over several frames; judged by Trace_PbFrame (outcome relation from io.ReadFull semantics); distinct = distinct histories',
     assumptions=TRUST + ['proto.Marshal/Unmarshal of the message itself is trusted', 'the driver runs under RLIMIT_AS so that an allocation from an untrusted size kills the driver (reported as crash), not the sandbox'],
 )
+
+PROPS['C20'] = dict(
+    trace=dict(module='Trace_SizeOf', cfg='Trace_SizeOf.cfg'), mc=dict(quick=[], thorough=[]), need_kinds=['size'],
+    rule='a case is a typed value tree (type + content description) rebuilt with package reflect: every scalar kind (incl. int, uint, uintptr, complex) at top level, in a slice, an array, behind a nil and a non-nil pointer, '
+         'in an interface-typed struct field and as a map value; seeded random trees of depth 1..4 (thorough 6): nested slices/arrays/maps/pointers/interfaces/structs, all-scalar structs with mixed field widths, nil and zero-length containers, '
+         'maps keyed by ints, strings, structs and arrays, the same pointer stored twice; size.Of and the first line of size.Stat (depth 0 and 3) judged against SizeOf!SizeD; distinct = distinct descriptions, non-trivial = not the nil argument',
+    assumptions=TRUST + ['64-bit platform header sizes (16/24/8/8/16)', 'the value is rebuilt from its description by reflect (StructOf/SliceOf/MapOf/PtrTo); the description is never derived from the value'],
+)
